@@ -192,11 +192,6 @@ func (h *counterHistory) forgetCountersBefore(ourKeyID, theirKeyID uint32) {
 	h.counters = kept
 }
 
-func (k *keyManagementContext) revealMACKeysForOurPreviousKeyID() {
-	keys := k.macKeyHistory.forgetMACKeysForOurKey(k.ourKeyID - 1)
-	k.oldMACKeys = append(k.oldMACKeys, keys...)
-}
-
 func (c *Conversation) rotateKeys(dataMessage dataMsg) error {
 	if err := c.keys.rotateOurKeys(dataMessage.recipientKeyID, c.rand()); err != nil {
 		return err
@@ -212,8 +207,14 @@ func (c *Conversation) rotateKeys(dataMessage dataMsg) error {
 
 func (k *keyManagementContext) rotateOurKeys(recipientKeyID uint32, randomness io.Reader) error {
 	if recipientKeyID == k.ourKeyID {
-		k.revealMACKeysForOurPreviousKeyID()
-		return k.generateNewDHKeyPair(randomness)
+		// the previous key is given up only once its successor exists: if no new
+		// key pair can be generated the old one stays in use, and so do its MAC keys
+		retiring := k.ourKeyID - 1
+		if err := k.generateNewDHKeyPair(randomness); err != nil {
+			return err
+		}
+		keys := k.macKeyHistory.forgetMACKeysForOurKey(retiring)
+		k.oldMACKeys = append(k.oldMACKeys, keys...)
 	}
 	return nil
 }
